@@ -234,6 +234,41 @@ func c03Targets() []c03Target {
 	ext(0x66, func() bodyParser { return &c03Ext{ID: 0x66, P: &model.T0x0200AdditionExtension0x66{}} }, []int{40, 41, 49, 50, 58, 59})
 	ext(0x67, func() bodyParser { return &c03Ext{ID: 0x67, P: &model.T0x0200AdditionExtension0x67{}} }, []int{41})
 	ext(0x70, func() bodyParser { return &c03Ext{ID: 0x70, P: &model.T0x0200AdditionExtension0x70{}} }, []int{47})
+	// the same parsers on receivers configured with each active-safety dialect: the 16-byte sign inside the item is
+	// Su-biao whatever the receiver says (defect F25: HLJ/GD/SC receivers read a 30-byte terminal ID out of 16 bytes)
+	for _, d := range gen.Dialects {
+		d := d
+		sign := model.P9208AlarmSign{ActiveSafetyType: d}
+		n0 := len(ts)
+		ext(0x64, func() bodyParser {
+			p := &model.T0x0200AdditionExtension0x64{}
+			p.P9208AlarmSign = sign
+			return &c03Ext{ID: 0x64, P: p}
+		}, []int{47})
+		ext(0x65, func() bodyParser {
+			p := &model.T0x0200AdditionExtension0x65{}
+			p.P9208AlarmSign = sign
+			return &c03Ext{ID: 0x65, P: p}
+		}, []int{47})
+		ext(0x66, func() bodyParser {
+			p := &model.T0x0200AdditionExtension0x66{}
+			p.P9208AlarmSign = sign
+			return &c03Ext{ID: 0x66, P: p}
+		}, []int{41, 50})
+		ext(0x67, func() bodyParser {
+			p := &model.T0x0200AdditionExtension0x67{}
+			p.P9208AlarmSign = sign
+			return &c03Ext{ID: 0x67, P: p}
+		}, []int{41})
+		ext(0x70, func() bodyParser {
+			p := &model.T0x0200AdditionExtension0x70{}
+			p.P9208AlarmSign = sign
+			return &c03Ext{ID: 0x70, P: p}
+		}, []int{47})
+		for i := n0; i < len(ts); i++ {
+			ts[i].Name = fmt.Sprintf("%s/dialect%d", ts[i].Name, d)
+		}
+	}
 	// frame and RTP decoders
 	ts = append(ts, c03Target{Name: "jt808.Decode", TypeName: "JTMessage", Raw: true, Mk: func() bodyParser { return &c03Frame{J: jt808.NewJTMessage()} },
 		Seeds: func(g gen.G) [][]byte {
